@@ -138,6 +138,9 @@ class Sim:
 
     def stream_sync(self, th: Dict[str, Any]) -> None:
         s = self.r.choice(self.streams)
+        idle = [x for x in self.streams if self.free_at[x] <= th["t"]]
+        if idle and any(self.free_at[x] > th["t"] + 3 for x in self.streams) and self.r.random() < 0.5:
+            s = self.r.choice(idle)             # waiting for an idle stream while another stream is still busy: returns at once
         c = self.newcorr()
         ts = th["t"]
         end = max(ts + 3, self.free_at[s] + 1)
@@ -459,3 +462,11 @@ def scaled_files(files: Dict[str, Any], unit: float) -> Dict[str, Any]:
                     if isinstance(e.get(k), (int, float)) and not isinstance(e.get(k), bool):
                         e[k] = e[k] * unit
     return out
+
+
+def pick_first_step(rnd: random.Random, lo: int = 1, hi: int = 500) -> int:
+    """Number of the first profiler step.  One time in four the steps cross a digit-count boundary (…8, 9, 10, 11…), where
+    the numeric and the lexicographic order of the step names differ."""
+    if rnd.random() < 0.25:
+        return max(lo, rnd.choice([9, 99, 999]) - rnd.choice([0, 0, 1, 2]))
+    return rnd.randint(lo, hi)
